@@ -498,6 +498,7 @@ def main():
         reg.append('    h(shortw_%s, 96, crate::containers::short_write::<%s, _, 1>, "complete", "C08", "Serializer::save_impl; Serializer::write_*; %s Serialize", "writer accepts 1 byte per call (all values)");' % (n, T, der))
         reg.append('    h(chunk1_%s, 96, crate::containers::chunked_read::<%s, _, 1>, "complete", "C08", "Deserializer::load_impl; Deserializer::read_*; %s Deserialize", "reader delivers 1 byte per call (all values)");' % (n, T, der))
         reg.append('    h(chunk3_%s, 96, crate::containers::chunked_read::<%s, _, 3>, "complete", "C08", "Deserializer::load_impl; Deserializer::read_*; %s Deserialize", "reader delivers 3 bytes per call (all values)");' % (n, T, der))
+        reg.append('    h(flushfail_%s, 96, crate::containers::flush_fail::<%s, _>, "complete", "C08", "Serializer::save_impl (final flush of the caller\'s writer); From<io::Error> for SavefileError; %s Serialize", "");' % (n, T, der))
         if n in ("SPlain", "EData"):
             for at in (0, 9, 16, 17):
                 reg.append('    h(failw%d_%s, 96, crate::containers::fail_write::<%s, _, %d>, "bounded", "C08", "Serializer::save_impl; Serializer::write_*; From<io::Error> for SavefileError; %s Serialize", "hard write failure at byte offset %d (one offset per instance; all offsets are covered by the Verus Err-clauses)");' % (at, n, T, at, der, at))
@@ -536,6 +537,17 @@ def main():
     open(os.path.join(OUT, "native_family.rs"), "w").write("\n".join(nat) + "\n")
     open(os.path.join(OUT, "family_gen.rs"), "w").write("\n".join(out))
     reg.append("}")
+    # Unwinding bounds: the container harnesses compare / copy whole files (memcmp, one-byte chunk loops). For the larger
+    # family members the default bound was measured to be too small (unwinding assertions are on, so such a harness FAILS
+    # its unwinding assertion, it never passes silently). Those are listed in kani/unwind_overrides.json with a bound of 200.
+    import json, re
+    ov = json.load(open(os.path.join(ROOT, "kani", "unwind_overrides.json")))
+    def bump(line):
+        m = re.match(r"(\s*h\()(\w+), (\d+),(.*)", line)
+        if m and m.group(2) in ov:
+            return "%s%s, %d,%s" % (m.group(1), m.group(2), ov[m.group(2)], m.group(4))
+        return line
+    reg = [bump(l) for l in reg]
     open(os.path.join(OUT, "registry_family.rs"), "w").write("\n".join(reg) + "\n")
     print("family: %d types, %d harnesses" % (len(FAMILY), len(reg) - 3))
 
